@@ -154,3 +154,15 @@ Proof.
   intros H1 H2 H3. unfold trans_handler.
   destruct c; try congruence; repeat break_match; reflexivity.
 Qed.
+
+(** * A client that stops reading *)
+
+(** Once writes fail, the next command is still executed (its reply is lost) and the
+    session then ends: sendError is only looked at between commands. *)
+Theorem write_break_ends_session fl w c :
+  is_open w = true -> w_wfail w = true ->
+  s_state (w_sess (do_cmd fl w c)) = Closed /\ w_out (do_cmd fl w c) = w_out w.
+Proof.
+  intros Ho Hw. unfold do_cmd. rewrite Ho, Hw.
+  destruct (step fl (w_store w) (w_sess w) c) as [[s' r] st']. split; reflexivity.
+Qed.
